@@ -364,6 +364,120 @@ fn setup(pos: Pos, r: usize, t: &mut Tape) -> Setup {
     }
 }
 
+/// Timeouts at several request positions of one query: 2 protocols x 4 position subsets x
+/// (r, k) with r in 1..=3 and k in 1..=r silent first attempts at every chosen position.
+pub const COMBOS: u64 = 2 * 4 * 6;
+
+fn combo_case(cell: u64, rep: u64, mut t: Tape, detail: bool) -> (CaseOut, Tape) {
+    let mut out = CaseOut::default();
+    let unreal = cell % 2 == 1;
+    let subset = [0b011u8, 0b101, 0b110, 0b111][(cell / 2 % 4) as usize];
+    let (r, k) = [(1usize, 1usize), (2, 1), (2, 2), (3, 1), (3, 2), (3, 3)][(cell / 8 % 6) as usize];
+    let port = 20_000 + t.draw(CFG, 1000) as u16;
+    let addr = SocketAddr::new(SERVER_IP, port);
+    let silent: Vec<O> = vec![O::S; k];
+    let _ = rep;
+    let (call, make): (Call, Box<dyn Fn(bool) -> World>) = if unreal {
+        let mut st = Unreal2State::generate(&mut t, 6);
+        st.num_players = st.players.len() as u32;
+        let rules = st.rules_datagrams(1, &mut t);
+        let players = st.players_datagrams(1, &mut t);
+        let info = st.info_datagram();
+        let g = U2G { players: GatherToggle::Enforce, mutators_and_rules: GatherToggle::Enforce };
+        let sil = silent.clone();
+        (
+            Call { entry: Entry::Unreal2 { gather: g }, ip: SERVER_IP, port: Some(port), default_port: port, timeout: ts(r) },
+            Box::new(move |faulty| {
+                let mut s = Unreal2Server::new(info.clone(), rules.clone(), players.clone());
+                if faulty {
+                    for p in 0 .. 3 {
+                        if subset & (1 << p) != 0 {
+                            s.outcomes[p] = to_gm(&sil);
+                        }
+                    }
+                }
+                let mut w = World::new(Tape::replay(Default::default()));
+                w.add_server(addr, Proto::Udp, Box::new(s));
+                w
+            }),
+        )
+    } else {
+        let st = ValveState::generate(&mut t, false, false, Some(440), 8, 8);
+        let gs = GatheringSettings { players: GatherToggle::Enforce, rules: GatherToggle::Enforce, check_app_id: true };
+        let rounds = t.draw(CFG, 2) as u8;
+        let sil = silent.clone();
+        (
+            Call { entry: Entry::Valve { engine: Engine::new(440), gather: Some(gs) }, ip: SERVER_IP, port: Some(port), default_port: port, timeout: ts(r) },
+            Box::new(move |faulty| {
+                let mut s = ValveServer::new(st.clone());
+                for p in 0 .. 3 {
+                    s.enc[p].challenge_rounds = rounds;
+                    if faulty && subset & (1 << p) != 0 {
+                        s.outcomes[p] = to_vm(&sil);
+                    }
+                }
+                let mut w = World::new(Tape::replay(Default::default()));
+                w.add_server(addr, Proto::Udp, Box::new(s));
+                w
+            }),
+        )
+    };
+    let ff = run_call(make(false), &call);
+    out.absorb(&ff.world);
+    let (ff_class, ff_json) = result_class(&ff);
+    if ff_class != "ok" {
+        out.skipped = Some("fault-free run of this scenario fails (owned by the decode properties)");
+        return (out, t);
+    }
+    let run = run_call(make(true), &call);
+    out.absorb(&run.world);
+    out.fault("silent_attempt");
+    out.probe("timeouts_at_several_positions");
+    // attempts per position, from the history
+    let unit = |d: &[u8], p: usize| -> bool {
+        if unreal {
+            d == [0x79, 0, 0, 0, p as u8]
+        } else {
+            let kb = [0x54u8, 0x55, 0x56][p];
+            d.len() >= 5 && d[4] == kb && (if p == 0 { d.len() == 25 } else { d[5 ..] == [0xff; 4] })
+        }
+    };
+    let fam = format!("{}Combo", if unreal { "U2" } else { "Valve" });
+    let (class, json) = result_class(&run);
+    if let Some(c) = &run.crash {
+        out.violate(super::crash_violation(&format!("{fam}|"), c));
+    } else {
+        for p in 0 .. 3 {
+            let sends = run.world.hist.iter().filter(|h| matches!(h, crate::world::Hist::UdpSend { data, .. } if unit(data, p))).count();
+            let want = if subset & (1 << p) != 0 { k + 1 } else { 1 };
+            if sends != want {
+                out.violate(Violation::new(
+                    format!("{fam}|attempts/{}", if sends > want { "too-many" } else { "too-few" }),
+                    format!("retries={r}, the first {k} attempt(s) time out at positions {subset:03b} (bit 0 = info): position {p} was sent {sends} times; the retry count is per request"),
+                    format!("{want} attempts"),
+                    format!("{sends} attempts"),
+                ));
+            }
+        }
+        let same = json.as_ref().zip(ff_json.as_ref()).map_or(false, |(a, b)| json_diff(b, a).is_none());
+        if !same {
+            out.violate(Violation::new(
+                format!("{fam}|valid-attempt/{}", if class == "ok" { "different-result" } else { class.as_str() }),
+                format!("retries={r}, the first {k} attempt(s) time out at positions {subset:03b}: every request still has attempts left, the result must equal the fault-free one"),
+                "the fault-free result",
+                describe_result(&run.result, &run.crash),
+            ));
+        }
+    }
+    out.nontrivial = true;
+    out.distinct_key = crate::rng::mix(&[out.log_hash, 1_000_000 + cell]);
+    if detail {
+        out.sample = Some(json!({"call": describe_call(&call), "positions_with_timeouts": format!("{subset:03b}"), "retries": r, "silent_first_attempts": k, "result": describe_result(&run.result, &run.crash)}));
+        out.schedule = run.world.render_history(150);
+    }
+    (out, t)
+}
+
 fn result_class(r: &RunOut) -> (String, Option<Value>) {
     match (&r.crash, &r.result) {
         (Some(c), _) => (c.signature(), None),
@@ -383,7 +497,7 @@ impl Prop for C10 {
     fn level(&self) -> &'static str { "fault_enumeration" }
 
     fn cases(&self, tier: Tier) -> u64 {
-        let n = (cells().len() * POSITIONS.len()) as u64;
+        let n = (cells().len() * POSITIONS.len()) as u64 + COMBOS;
         match tier {
             Tier::Quick => n * 2,
             Tier::Thorough => n * 60,
@@ -395,7 +509,11 @@ impl Prop for C10 {
     fn run_case(&self, idx: u64, mut t: Tape, detail: bool) -> (CaseOut, Tape) {
         let mut out = CaseOut::default();
         let all = cells();
-        let ncell = (all.len() * POSITIONS.len()) as u64;
+        let nmain = (all.len() * POSITIONS.len()) as u64;
+        let ncell = nmain + COMBOS;
+        if idx % ncell >= nmain {
+            return combo_case(idx % ncell - nmain, idx / ncell, t, detail);
+        }
         let cell = (idx % ncell) as usize;
         let rep = idx / ncell;
         let pos = POSITIONS[cell % POSITIONS.len()];
@@ -505,8 +623,8 @@ impl Prop for C10 {
 
     fn rule(&self) -> String {
         format!(
-            "case index enumerates {} cells = {} (r, outcome vector) pairs (r in 0..=3, all vectors over {{silent, malformed, valid}} of length 1..=r+2) x {} request positions (Valve info/players/rules, FFOW, GameSpy 1, 2, 3 handshake and data, JC2M handshake and data, Quake, Unreal 2 info/rules/players, Minecraft Java, Bedrock, legacy, Mindustry); repetitions alternate how 'silent' is realised (no reply == request or reply lost; send fails with an io::Error) and redraw the server state; every cell runs the fault-free scenario and the faulty one; oracle = a 10-line reference model of the retry rule; distinct = (cell, event-log hash)",
-            cells().len() * POSITIONS.len(),
+            "case index enumerates {} cells = 48 multi-position cells (Valve / Unreal 2, timeouts of the first k attempts at 2 or 3 request positions of the same query, k <= r) + {} (r, outcome vector) pairs (r in 0..=3, all vectors over {{silent, malformed, valid}} of length 1..=r+2) x {} request positions (Valve info/players/rules, FFOW, GameSpy 1, 2, 3 handshake and data, JC2M handshake and data, Quake, Unreal 2 info/rules/players, Minecraft Java, Bedrock, legacy, Mindustry); repetitions alternate how 'silent' is realised (no reply == request or reply lost; send fails with an io::Error) and redraw the server state; every cell runs the fault-free scenario and the faulty one; oracle = a 10-line reference model of the retry rule; distinct = (cell, event-log hash)",
+            cells().len() * POSITIONS.len() + 48,
             cells().len(),
             POSITIONS.len()
         )
